@@ -460,18 +460,28 @@ func emptyListEdges(f *ssa.Function) map[kit.Edge]bool {
 	out := map[kit.Edge]bool{}
 	for _, g := range kit.FindGuards(f, func(c ssa.Value) (bool, bool) {
 		b, ok := c.(*ssa.BinOp)
-		if !ok || b.Op != token.GTR {
+		if !ok {
 			return false, false
 		}
-		if z, ok := kit.ConstInt(b.Y); !ok || z != 0 {
+		z, isC := kit.ConstInt(b.Y)
+		if !isC {
 			return false, false
 		}
 		cl := isCallTo(b.X, "builtin.len")
 		if cl == nil {
 			return false, false
 		}
-		fl, _ := kit.LoadedField(cl.Call.Args[0])
-		return fl != nil && fl.Name() == "InvList", true
+		if fl, _ := kit.LoadedField(cl.Call.Args[0]); fl == nil || fl.Name() != "InvList" {
+			return false, false
+		}
+		// pass = "not empty"; the fail edge is the empty-list edge
+		switch {
+		case b.Op == token.GTR && z == 0, b.Op == token.NEQ && z == 0, b.Op == token.GEQ && z == 1:
+			return true, true
+		case b.Op == token.EQL && z == 0, b.Op == token.LEQ && z == 0, b.Op == token.LSS && z == 1:
+			return true, false
+		}
+		return false, false
 	}) {
 		out[g.FailEdge()] = true
 	}
